@@ -7,6 +7,7 @@ import (
 	"context"
 	"encoding/json"
 	"fmt"
+	"io"
 	"net"
 	netmail "net/mail"
 	"strings"
@@ -111,6 +112,10 @@ func (rn *Runner) apply(m *mail.Msg, c Call) error {
 		return m.FromFormat(c.Name, addr)
 	case "envign:Env":
 		m.SetAddrHeaderIgnoreInvalid(mail.HeaderEnvelopeFrom, v...)
+	case "render:To": // the message is rendered in between (a preview, a stored copy): the address state is what it was
+		if _, err := m.WriteTo(io.Discard); err != nil {
+			return fmt.Errorf("harness: intermediate render: %w", err)
+		}
 	case "reset:To": // Msg.Reset also drops the body and the generic headers: they are set again
 		m.Reset()
 		m.SetDateWithValue(time.Date(2024, 5, 17, 10, 11, 12, 0, time.UTC))
